@@ -23,7 +23,7 @@ QUERIES = ['s', 't', 'f', 'b', 'n', 'l', 'l[*]', 'ls[*]', 'e', 'e[*]', 'm', 'm.k
            'lm[ k == 5 ]', 'lm[ k == 77 ]', 'missing[ k == 1 ]', 'm.missing[ k == 1 ]', 'lm[ j exists ]',
            '%qv', '%mv', '%lv', '%lit', '%ev', 'm[ keys == "k" ]', 'm[ keys == "zz" ]', 'n[ k == 1 ]']
 RHS = ['5', '1', '"ab"', '"zz"', '1.5', 'true', 'null', '[1, 5]', '["ab", "c"]', '[]', 'r[1,5]', '/^a/',
-       's2', 't2', 'l', 'l[*]', 'missing', '%lit', '%qv', '{k: 5, j: "x"}',
+       's2', 't2', 'l', 'l[*]', 'missing', '%lit', '%qv', '{k: 5, j: "x"}', 's', 'lm[*].k',
        # right-hand sides that select NOTHING (a comparison against them is skipped, negated or not)
        'lm[ k == 77 ].k', '%ev', 'lm[ k == 77 ]']
 BINARY = ['==', 'in', '>', '>=', '<', '<=']
@@ -230,6 +230,7 @@ def run(ctx):
                         A, C = variants(q, some, op, rhs)
                         groups.append((doc, q, some, op, rhs, A, C))
     total = len(groups)
+    groups_all = groups
     if ctx.tier == 'quick':
         # stratified: every (operator, right-hand side) cell gets the same number of (document, query, all/some) draws
         cells = {}
@@ -237,6 +238,9 @@ def run(ctx):
             cells.setdefault((g[3], g[4]), []).append(g)
         per = max(1, 1000 // len(cells))
         groups = [g for key in sorted(cells, key=str) for g in rng.sample(cells[key], min(per, len(cells[key])))]
+        # always: a literal-valued variable on the LEFT of `==` / `in` against a query on the right (the literal-vs-query arm of the operators)
+        core = [g for g in groups_all if g[1] in ('%lit',) and g[3] in ('==', 'in') and g[4] in ('s2', 't2', 'l', 'l[*]', 'missing', 's', 'lm[*].k')]
+        groups += [g for g in core if g not in groups]
     n, dist = run_groups(ctx, groups, 'c03')
     n3, dist3 = run_groups(ctx, random_groups(ctx, 400 if ctx.tier == 'quick' else 3000), 'c03rnd')
     ctx.coverage['random_clause_groups'] = n3
